@@ -151,8 +151,11 @@ Definition load (ds : list drv) (id h : Z) : option drv :=
       then Some d else None
   end.
 
-(** Transaction.CheckSign(height) (no executor-specific driver override).
-    [verify id msg pub sig] is the driver's Validate. *)
+(** Transaction.checkSign(height) without the sender gate: signature present,
+    then types.CheckSign(data, execer, sign, height) (no executor-specific
+    driver override; the same function checks block signatures).
+    [verify id msg pub sig] is the driver's Validate.  The whole of
+    Transaction.CheckSign is [check_sign_tx] below. *)
 Definition check_sign (ds : list drv) (verify : Z -> list N -> list N -> list N -> bool)
     (t : tx) (h : Z) : bool :=
   match signature t with
@@ -161,5 +164,53 @@ Definition check_sign (ds : list drv) (verify : Z -> list N -> list N -> list N 
       match load ds (crypto_id (s_ty s)) h with
       | None => false
       | Some d => verify (d_id d) (signed_bytes t) (s_pub s) (s_sig s)
+      end
+  end.
+
+(** * Sender address, and the sender gate of Transaction.checkSign *)
+(** types.ExtractAddressID: (signID & 0x7000) >> 12 *)
+Definition addr_id (ty : Z) : Z := Z.shiftr (Z.land ty 0x7000) 12.
+
+(** One address driver call as Transaction.fromAddr makes it.  Address
+    drivers are not modelled, [adrv id pub] is given from outside:
+      ANone    address.LoadDriver(id, -1) finds no driver with this id
+      APanic   the driver's PubKeyToAddr panics on this key
+               (utxo: "implement me"; eth: empty key)
+      AAddr a  it returns the address a *)
+Inductive aout := ANone | APanic | AAddr (a : list N).
+
+(** Signature.GetTy / GetPubkey of a possibly nil Signature *)
+Definition sig_ty (t : tx) : Z := match signature t with Some s => s_ty s | None => 0%Z end.
+Definition sig_pub (t : tx) : list N := match signature t with Some s => s_pub s | None => [] end.
+
+(** Transaction.fromAddr: [Some a] = (a, true), [None] = ("", false).  The
+    driver is loaded with LoadDriver (an error, not MustLoadDriver's panic) and
+    the deferred recover confines a panic of the driver. *)
+Definition from_addr (adrv : Z -> list N -> aout) (t : tx) : option (list N) :=
+  match adrv (addr_id (sig_ty t)) (sig_pub t) with
+  | AAddr a => Some a
+  | ANone | APanic => None
+  end.
+
+(** a sender address can be derived for this signature type and key *)
+Definition usable (adrv : Z -> list N -> aout) (ty : Z) (pub : list N) : bool :=
+  match adrv (addr_id ty) pub with AAddr _ => true | ANone | APanic => false end.
+
+(** Transaction.From() as an outcome: [Some a] = returns the string a,
+    [None] = panics.  There is no panicking path: without a derivable sender
+    the result is the empty string. *)
+Definition tx_from (adrv : Z -> list N -> aout) (t : tx) : option (list N) :=
+  Some (match from_addr adrv t with Some a => a | None => [] end).
+
+(** Transaction.CheckSign(height): signature present, a sender address can be
+    derived from it, then types.CheckSign *)
+Definition check_sign_tx (adrv : Z -> list N -> aout) (ds : list drv)
+    (verify : Z -> list N -> list N -> list N -> bool) (t : tx) (h : Z) : bool :=
+  match signature t with
+  | None => false
+  | Some _ =>
+      match from_addr adrv t with
+      | None => false
+      | Some _ => check_sign ds verify t h
       end
   end.
